@@ -192,3 +192,51 @@ def extra(stats, tier, seed):
                 if got is not x:
                     viol("%s(x) with a single %s input returned a different object (%s) instead of x itself" % (op, nm, type(got).__name__),
                          "comb:single-input-not-returned", nm)
+        # inputs that react to the loser's cancel(): (a) an input whose cancel() raises, (b) a loser whose done-callback cancels
+        # the output, (c) the output combined with one of its own inputs (f_zip(b, out) / f_and(b, out): chain_cancel leads back to
+        # the output).  Whatever the losers do, the deciding input's outcome is the output's and every pending loser gets a cancel().
+        rng = random.Random(seed + 14)
+
+        class Grumpy(Future):
+            ncancel = 0
+
+            def cancel(self):
+                self.ncancel += 1
+                raise RuntimeError("this future does not like to be cancelled")
+
+        class Counting(Future):
+            ncancel = 0
+
+            def cancel(self):
+                self.ncancel += 1
+                return Future.cancel(self)
+
+        from more_executors.futures import f_zip
+        for trial in range(40 if tier == "quick" else 1000):
+            for op, f, decider in (("f_or", f_or, rng.choice([1, "yes", [0]])), ("f_and", f_and, rng.choice([0, "", None]))):
+                shape = rng.choice(["grumpy", "cb-cancels-out", "zip-with-out", "and-with-out"])
+                a = Future()
+                losers = [Grumpy() if shape == "grumpy" and k == 0 else Counting() for k in range(rng.randint(1, 3))]
+                ins = [a] + losers
+                rng.shuffle(ins)
+                out = f(*ins)
+                extra_out = None
+                if shape == "cb-cancels-out":
+                    losers[0].add_done_callback(lambda _f, out=out: out.cancel())
+                elif shape == "zip-with-out":
+                    extra_out = f_zip(losers[0], out)
+                elif shape == "and-with-out":
+                    extra_out = f_and(losers[0], out)
+                try:
+                    a.set_result(decider)
+                except Exception:
+                    pass
+                stats.add([[14, 15, len(ins), len(shape)]], True, None, ["api:loser-reacts:" + shape])
+                st = out._state
+                if st != "FINISHED" or out._exception is not None or out._result != decider or type(out._result) is not type(decider):
+                    viol("%s decided by %r with losers that react to cancel (%s): output is %s / %r" % (op, decider, shape, st, getattr(out, "_result", None)),
+                         "comb:decided-but-" + ("pending" if st == "PENDING" else "cancelled" if st.startswith("CANCELLED") else "wrong"), shape)
+                missed = [k for k, l in enumerate(losers) if l.ncancel < 1]      # (a second request may arrive through f_zip / f_and built on the loser)
+                if missed and shape != "grumpy":
+                    viol("%s decided: losers %s received %s cancel() calls, expected a request (%s)" % (op, missed, [losers[k].ncancel for k in missed], shape),
+                         "comb:loser-cancel-count", shape)
